@@ -5907,10 +5907,12 @@ class Path(Shape, MutableSequence):
             if isinstance(segment, Move):
                 self._segments[index].end = Point(segment.end)
                 return
-            if i != index and isinstance(segment, Close) and segment.end is not None:
-                # An earlier close of the same subpath already points at the subpath start.
-                self._segments[index].end = Point(segment.end)
-                return
+            if i != index and isinstance(segment, Close):
+                # An earlier close of the same subpath already points at the subpath start (or found none).
+                if segment.end is not None:
+                    self._segments[index].end = Point(segment.end)
+                    return
+                break
         self._segments[index].end = (
             Point(self._segments[0].end) if self._segments[0].end is not None else None
         )
@@ -6143,7 +6145,7 @@ class Path(Shape, MutableSequence):
             if isinstance(segment, Move):
                 end_pos = segment.end
                 break
-            if isinstance(segment, Close) and segment.end is not None:
+            if isinstance(segment, Close):
                 # A close ends at the start of its own subpath, which stays the start for what follows.
                 end_pos = segment.end
                 break
